@@ -1708,6 +1708,7 @@ package mocrelay
 //@   serves C13 C08 C09
 //@   requires sessionWF(ss) && forall(i, 0, len(chanbuf(recv)), wfRecvMsg(chanbuf(recv)[i]))
 //@   requires forall(i, 0, len(ss.recvs), refof(ss.recvs[i]) != refof(recv))
+//@   requires[C09] forall(i, 0, len(ss.recvs), forall(j, 0, len(ss.recvs), i != j ==> refof(ss.recvs[i]) != refof(ss.recvs[j])))
 //@   loop 1
 //@     invariant sessionWF(ss) && chanbuf(recv) == lold(chanbuf(recv)) && 0 <= chanhead(recv)
 //@ func mergeHandlerSession.handleSend
@@ -1719,12 +1720,19 @@ package mocrelay
 //@ func mergeHandlerSession.mergeSend
 //@   serves C13
 //@   requires ss != nil
+// fan-out: every child gets the message exactly once (appended to its channel, or counted as abandoned/nil)
 //@ func mergeHandlerSession.broadcastRecvs
-//@   serves C13
+//@   serves C13 C08 C09
 //@   requires ss != nil
+//@   requires[C09] forall(i, 0, len(ss.recvs), forall(j, 0, len(ss.recvs), i != j ==> refof(ss.recvs[i]) != refof(ss.recvs[j])))
 //@   writes each(i, 0, len(ss.recvs), contents(ss.recvs[i])), each(i, 0, len(ss.recvs), ghost(dropped, ss.recvs[i]))
-//@   loop 1
+//@   ensures[C09] forall(i, 0, len(ss.recvs), len(chanbuf(ss.recvs[i])) + g(dropped, ss.recvs[i]) == old(len(chanbuf(ss.recvs[i])) + g(dropped, ss.recvs[i])) + 1)
+//@   ensures[C09] forall(i, 0, len(ss.recvs), len(chanbuf(ss.recvs[i])) > old(len(chanbuf(ss.recvs[i]))) ==> chanbuf(ss.recvs[i])[len(chanbuf(ss.recvs[i])) - 1] == msg)
+//@   loop 1 as k
 //@     lwrites each(i, 0, len(ss.recvs), contents(ss.recvs[i])), each(i, 0, len(ss.recvs), ghost(dropped, ss.recvs[i]))
+//@     invariant[C09] forall(i, 0, len(ss.recvs), len(chanbuf(ss.recvs[i])) + g(dropped, ss.recvs[i]) == old(len(chanbuf(ss.recvs[i])) + g(dropped, ss.recvs[i])) + ite(i < k, 1, 0))
+//@     invariant[C09] forall(i, 0, len(ss.recvs), len(chanbuf(ss.recvs[i])) >= old(len(chanbuf(ss.recvs[i]))))
+//@     invariant[C09] forall(i, 0, len(ss.recvs), len(chanbuf(ss.recvs[i])) > old(len(chanbuf(ss.recvs[i]))) ==> chanbuf(ss.recvs[i])[len(chanbuf(ss.recvs[i])) - 1] == msg)
 //@ func newMergeHandlerSessionSendMsg
 //@   serves C13 C08 C09
 //@   writes nothing
